@@ -57,3 +57,34 @@ def ctor_rule(ctx, run, rule, classes, only, why):
         if sel:
             ci = prog.classes[cls]
             run.fail(Finding(rule, cls + ".__init__", "; ".join(f"self.{p} holds {h}" for p, h in sel), why, file=str(prog.modules[ci.module].path), line=ci.node.lineno))
+
+
+def rebinding_rule(ctx, run, rule, prefixes, minimum):
+    """`_set_attr_and_docstring(Cls, "name", Base.method)` / `_set_docstring(...)` (the library's way of giving inherited methods their own
+    documentation) re-binds the class attribute: every such statement in the given packages binds a method under ITS OWN name - 78 of 78 on
+    the pinned tree; a copy-paste slip (`"max_log_moneyness", OptionMixin.log_moneyness`) silently replaces a method of that class only."""
+    import ast
+    from .report import Finding
+    prog = ctx.prog
+    n = 0
+    for mod in prog.modules.values():
+        if not mod.name.startswith(tuple(prefixes)):
+            continue
+        for st in mod.tree.body:
+            if not (isinstance(st, ast.Expr) and isinstance(st.value, ast.Call) and isinstance(st.value.func, ast.Name) and st.value.func.id in ("_set_attr_and_docstring", "_set_docstring", "setattr")):
+                continue
+            a = st.value.args
+            if len(a) != 3 or not isinstance(a[1], ast.Constant) or not isinstance(a[1].value, str):
+                raise AnalysisError(f"{mod.name}:{st.lineno}: re-binding statement not of the form (Cls, \"name\", Base.method)")
+            n += 1
+            name, target = a[1].value, ast.unparse(a[2])
+            ok = target.rsplit(".", 1)[-1] == name
+            if st.value.func.id == "_set_docstring":
+                ok = True  # documentation only: the attribute is untouched
+            run.oblige(rule, f"{mod.name.rsplit('.', 1)[-1]}: {ast.unparse(a[0])}.{name} re-bound to the method of the same name", ok, target)
+            if not ok:
+                run.fail(Finding(rule, f"{mod.name}.{ast.unparse(a[0])}", f"{ast.unparse(a[0])}.{name} is bound to {target}", "the class answers this name with another method of its base class",
+                                 file=str(mod.path), line=st.lineno))
+    run.require(rule, minimum)
+    if n < minimum:
+        raise AnalysisError(f"{rule}: only {n} re-binding statements found in {prefixes}")
